@@ -364,6 +364,10 @@ class _AdbIOManagerAsync(object):
             while arg0_arg1:
                 cmd, arg0, arg1, data = self._packet_store.get(arg0_arg1[0], arg0_arg1[1])
                 if cmd in expected_cmds:
+                    if cmd == constants.OKAY and adb_info.remote_id is None:
+                        # This `OKAY` acknowledges an `OPEN`: from now on, a `CLSE` for this stream must not be dropped by the store
+                        self._packet_store.stream_opened(arg0, arg1)
+
                     return cmd, arg0, arg1, data
 
                 arg0_arg1 = self._packet_store.find(adb_info.remote_id, adb_info.local_id) if not allow_zeros else self._packet_store.find_allow_zeros(adb_info.remote_id, adb_info.local_id)
@@ -380,6 +384,9 @@ class _AdbIOManagerAsync(object):
                     while arg0_arg1:
                         cmd, arg0, arg1, data = self._packet_store.get(arg0_arg1[0], arg0_arg1[1])
                         if cmd in expected_cmds:
+                            if cmd == constants.OKAY and adb_info.remote_id is None:
+                                self._packet_store.stream_opened(arg0, arg1)
+
                             return cmd, arg0, arg1, data
 
                         arg0_arg1 = self._packet_store.find(adb_info.remote_id, adb_info.local_id) if not allow_zeros else self._packet_store.find_allow_zeros(adb_info.remote_id, adb_info.local_id)
@@ -401,6 +408,10 @@ class _AdbIOManagerAsync(object):
 
                     # If `cmd` is a match, then we are done
                     if cmd in expected_cmds:
+                        if cmd == constants.OKAY and adb_info.remote_id is None:
+                            async with self._store_lock:
+                                self._packet_store.stream_opened(arg0, arg1)
+
                         return cmd, arg0, arg1, data
 
             # Check if time is up
